@@ -46,6 +46,8 @@ type z =
 | Zpos of positive
 | Zneg of positive
 
+val eqb : bool -> bool -> bool
+
 module Nat :
  sig
   val add : nat -> nat -> nat
@@ -108,11 +110,17 @@ module N :
  sig
   val succ_pos : n -> positive
 
+  val add : n -> n -> n
+
+  val mul : n -> n -> n
+
   val coq_lor : n -> n -> n
 
   val coq_land : n -> n -> n
 
   val ldiff : n -> n -> n
+
+  val to_nat : n -> nat
  end
 
 module Z :
@@ -202,6 +210,8 @@ val forallb : ('a1 -> bool) -> 'a1 list -> bool
 
 val filter : ('a1 -> bool) -> 'a1 list -> 'a1 list
 
+val find : ('a1 -> bool) -> 'a1 list -> 'a1 option
+
 val combine : 'a1 list -> 'a2 list -> ('a1 * 'a2) list
 
 val firstn : nat -> 'a1 list -> 'a1 list
@@ -209,6 +219,25 @@ val firstn : nat -> 'a1 list -> 'a1 list
 val skipn : nat -> 'a1 list -> 'a1 list
 
 val seq : nat -> nat -> nat list
+
+type ascii =
+| Ascii of bool * bool * bool * bool * bool * bool * bool * bool
+
+val eqb0 : ascii -> ascii -> bool
+
+val n_of_digits : bool list -> n
+
+val n_of_ascii : ascii -> n
+
+val nat_of_ascii : ascii -> nat
+
+type string =
+| EmptyString
+| String of ascii * string
+
+val eqb1 : string -> string -> bool
+
+val append : string -> string -> string
 
 val neg_one : z -> z
 
@@ -254,7 +283,7 @@ val from_i16 : z -> z -> z
 
 val try_into_i16 : z -> z -> z option
 
-val append : positive -> positive -> positive
+val append0 : positive -> positive -> positive
 
 module PositiveMap :
  sig
@@ -906,3 +935,94 @@ val live_ok : z -> binstr list -> z list -> z -> arr -> bool
 val bc_wf : z -> bool -> bprog -> bool
 
 val bc_wf_why : z -> bool -> bprog -> z
+
+type kind =
+| KPrintIr
+| KPrintBc
+| KPrintBc2
+| KInplace
+| KIrInt
+| KBcInt
+| KPrintMc
+| KBaseJit
+
+type action =
+| ASetKind of kind
+| ASetOpt of z
+| ASetBits of z
+| AHelp
+| ANextFile
+| ANextLimit
+| AStatic
+| ATime
+
+type table = (string * action) list
+
+val spec_table : table
+
+type defaults = { d_bits : z; d_opt : z; d_kind : kind }
+
+val spec_defaults : defaults
+
+val spec_widths : (z * z) list
+
+val lookup : table -> string -> action option
+
+val digit_of : ascii -> z option
+
+val parse_digits : string -> z -> z option
+
+val parse_usize : string -> z option
+
+type fileres =
+| FOk of string
+| FBadEncoding of string
+| FMissing
+
+type cstate = { c_bits : z; c_kind : kind; c_opt : z; c_limit : z option;
+                c_safe : bool; c_err : bool; c_help : bool; c_nfile : 
+                bool; c_nlimit : bool; c_time : bool; c_code : string;
+                c_diag : string list }
+
+val cstate0 : defaults -> cstate
+
+val apply_action : cstate -> action -> cstate
+
+val with_code :
+  cstate -> string -> bool -> string list -> bool -> bool -> z option ->
+  cstate
+
+val cli_step : table -> (string -> fileres) -> cstate -> string -> cstate
+
+val cli_run :
+  table -> defaults -> (string -> fileres) -> string list -> cstate
+
+type decision =
+| DHelp of z
+| DNothing of z
+| DRun of z * kind * z * string * z * string
+| DPanic
+
+val decide : (z * z) list -> cstate -> decision
+
+val is_imm : loc -> bool
+
+val loc_eq : loc -> loc -> bool
+
+val commute : loc -> loc -> loc -> loc * loc
+
+val reorder : z -> binstr -> binstr
+
+val jit_covers : binstr -> bool
+
+val dst_writable : loc -> bool
+
+val int_covers : binstr -> bool
+
+val src_plain : loc -> bool
+
+val pre_shape : binstr -> bool
+
+val unzero : loc -> loc
+
+val unzero_instr : binstr -> binstr
